@@ -47,9 +47,9 @@ unless it is an assignment to exactly that field. -/
 theorem step_frame {d : Dev ℝ} {f : Field} {v : Val ℝ} {r : Dev ℝ × Option Err} (h : Step d f v r) :
     r.1.cls = d.cls ∧ r.1.n = d.n ∧ (f ≠ .bounds → r.1.table = d.table) ∧ (f ≠ .cbounds → r.1.cbounds = d.cbounds) := by
   cases h with
-  | bounds bv w t e hf hv hw he => exact ⟨rfl, rfl, fun h => absurd hf h, fun _ => rfl⟩
+  | bounds bv w t e hf hv hw hg he => exact ⟨rfl, rfl, fun h => absurd hf h, fun _ => rfl⟩
   | cbNone hf hv => exact ⟨rfl, rfl, fun _ => rfl, fun h => absurd hf h⟩
-  | cb spec st e hf hv hs hr => exact ⟨rfl, rfl, fun _ => rfl, fun h => absurd hf h⟩
+  | cb spec st hf hv hs hr => exact ⟨rfl, rfl, fun _ => rfl, fun h => absurd hf h⟩
   | _ => exact ⟨rfl, rfl, fun _ => rfl, fun _ => rfl⟩
 
 /-- one assignment — accepted or rejected — preserves every parameter invariant. -/
@@ -170,8 +170,8 @@ theorem cdevice2Post_spec {d d' : Dev ℝ} (h : cdevice2Post d = .ok d') :
           cases hs with
           | attr ho => exact absurd (owns_cbounds d) ho
           | cbNone hf hv => exact ⟨_, rfl⟩
-          | cb spec st e hf hv hs hr => exact ⟨_, rfl⟩
-          | bounds bv w t e hf hv hw he => cases hf
+          | cb spec st hf hv hs hr => exact ⟨_, rfl⟩
+          | bounds bv w t e hf hv hw hg he => cases hf
           | _ => contradiction
     | some l =>
       cases l with
@@ -191,8 +191,8 @@ theorem cdevice2Post_spec {d d' : Dev ℝ} (h : cdevice2Post d = .ok d') :
             cases hs with
             | attr ho => exact absurd (owns_cbounds d) ho
             | cbNone hf hv => exact ⟨_, rfl⟩
-            | cb spec st e hf hv hs hr => exact ⟨_, rfl⟩
-            | bounds bv w t e hf hv hw he => cases hf
+            | cb spec st hf hv hs hr => exact ⟨_, rfl⟩
+            | bounds bv w t e hf hv hw hg he => cases hf
             | _ => contradiction
       | cons c cs =>
         simp only [hcb] at hfill
@@ -321,7 +321,11 @@ theorem gdevice_coeffs_accept_iff (d : Dev ℝ) (hc : d.cls = .gdevice) (k rows 
   have ho : owns d.cls .costCoeffs = true := by rw [hc]; rfl
   rw [setField_costCoeffs d _ ho]
   simp only
-  split_ifs with h <;> simp [h]
+  rcases guardSet_fst d { d with coeffNdim := some (k, rows) } (decide (k = 1 ∨ (k = 2 ∧ rows = d.n))) with ⟨h, hk⟩ | ⟨h, hk⟩ <;> rw [h]
+  · simp only [reduceCtorEq, false_iff]
+    simpa using hk
+  · simp only [true_iff]
+    simpa using hk
 
 /-! ### generators: upper bounds `≤ 0` -/
 
@@ -337,52 +341,85 @@ theorem hbNonpos_ok {t : Table ℝ} (h : hbNonpos t = .ok ()) : ∀ r ∈ t, ∃
   | none => simp [hr2] at this
   | some hh => simp [hr2] at this; exact ⟨hh, rfl, this⟩
 
-/-- one *accepted* assignment keeps a generator's upper bounds `≤ 0`. -/
-theorem step_gen {d : Dev ℝ} (hc : d.cls = .gdevice ∨ d.cls = .pvdevice) {f : Field} {v : Val ℝ} {d' : Dev ℝ}
-    (h : Step d f v (d', none)) (hi : HbNonpos d) : HbNonpos d' := by
+theorem hbNonpos_of {t : Table ℝ} (h : ∀ r ∈ t, ∃ h, r.2 = some h ∧ h ≤ 0) : hbNonpos t = .ok () := by
+  unfold hbNonpos
+  split_ifs with h1 h2
+  · exfalso
+    obtain ⟨r, hr, hnone⟩ := List.any_eq_true.mp h1
+    obtain ⟨hh, e, _⟩ := h r hr
+    simp [e] at hnone
+  · rfl
+  · exfalso
+    apply h2
+    apply List.all_eq_true.mpr
+    intro r hr
+    obtain ⟨hh, e, hle⟩ := h r hr
+    simp [e, hle]
+
+/-- one assignment — accepted **or rejected** — keeps a generator's upper bounds `≤ 0`: the sign check comes before
+anything is stored. -/
+theorem step_gen {d : Dev ℝ} (hc : d.cls = .gdevice ∨ d.cls = .pvdevice) {f : Field} {v : Val ℝ} {r : Dev ℝ × Option Err}
+    (h : Step d f v r) (hi : HbNonpos d) : HbNonpos r.1 := by
   by_cases hf : f = .bounds
   · subst hf
     cases h with
-    | bounds bv w t e hf' hv hw he => exact hbNonpos_ok ((he rfl).2 hc).2
+    | bounds bv w t e hf' hv hw hg he => exact hbNonpos_ok (hg hc)
     | attr ho => exact absurd (owns_bounds d) ho
+    | rejected e => exact hi
     | _ => contradiction
   · have := (step_frame h).2.2.1 hf
-    intro r hr
-    exact hi r (by rw [← this]; exact hr)
+    intro r' hr
+    exact hi r' (by rw [← this]; exact hr)
 
-/-- **a generator never reports a positive upper bound after any history of *accepted* assignments** … -/
+/-- **a generator never reports a positive upper bound, after any history of assignments — accepted, or rejected
+and caught.** -/
 theorem gen_hb_nonpos (d : Dev ℝ) (hc : d.cls = .gdevice ∨ d.cls = .pvdevice) (hi : HbNonpos d)
-    (ops : List (Field × Val ℝ)) (d' : Dev ℝ) (h : setAll d ops = .ok d') : HbNonpos d' := by
+    (ops : List (Field × Val ℝ)) : HbNonpos (runAll d ops) := by
   induction ops generalizing d with
-  | nil => simp [setAll] at h; rw [← h]; exact hi
+  | nil => exact hi
   | cons p rest ih =>
     obtain ⟨f, v⟩ := p
-    simp only [setAll] at h
+    simp only [runAll]
     have hs := setField_step d f v
-    cases hr : setField d f v with
-    | mk d1 e =>
-      rw [hr] at hs
-      cases e with
-      | some e => simp [hr] at h
-      | none =>
-        simp only [hr] at h
-        have hc1 : d1.cls = d.cls := (step_frame hs).1
-        exact ih d1 (by rw [hc1]; exact hc) (step_gen hc hs hi) h
+    exact ih _ (by rw [(step_frame hs).1]; exact hc) (step_gen hc hs hi)
 
-/-- … **but a rejected assignment is retained**: `pv.bounds = (0, 1)` raises `ValueError` *after* the base
-setter stored the table, so a caller that catches the exception is left with a generator that may consume. -/
-theorem gen_rejected_bounds_retained :
-    ∃ (d : Dev ℝ) (ops : List (Field × Val ℝ)), d.cls = .pvdevice ∧ HbNonpos d ∧
-      (setField d .bounds (.bounds (.seq .tuple [.num 0, .num 1]))).2 = some .valueError ∧
-      ¬ HbNonpos (runAll d [(.bounds, .bounds (.seq .tuple [.num 0, .num 1]))]) := by
-  refine ⟨Dev.default .pvdevice 1, [], rfl, by simp [HbNonpos, Dev.default], ?_, ?_⟩
+/-! ### rejected assignments -/
+
+/-- **a rejected assignment leaves the device exactly as it was** — for every field, with one exception that
+still exists in the code: `bounds` when `validate_bounds` mis-reads its argument (only possible on a length-2
+device, see `C11.misread_only_at_two`): the mis-read table is stored before `HyperCube` refuses its shape. -/
+theorem rejected_assignment_keeps_state {d d' : Dev ℝ} {f : Field} {v : Val ℝ} {err : Err}
+    (h : setField d f v = (d', some err)) :
+    d' = d ∨ (∃ bv w t, f = .bounds ∧ v = .bounds bv ∧ validateBoundsW bv d.n = .ok (w, t) ∧ w ≠ 2 ∧
+      d' = { d with table := t }) := by
+  have hs := setField_step d f v
+  rw [h] at hs
+  cases hs with
+  | rejected e => left; rfl
+  | bounds bv w t e hf hv hw hg he =>
+    right
+    refine ⟨bv, w, t, hf, hv, hw, ?_, rfl⟩
+    intro h2
+    have := he.mpr h2
+    cases this
+
+/-- in particular a rejected assignment to anything but `bounds` changes nothing. -/
+theorem rejected_keeps_state_of_ne_bounds {d d' : Dev ℝ} {f : Field} {v : Val ℝ} {err : Err}
+    (h : setField d f v = (d', some err)) (hf : f ≠ .bounds) : d' = d := by
+  rcases rejected_assignment_keeps_state h with h' | ⟨_, _, _, hb, _⟩
+  · exact h'
+  · exact absurd hb hf
+
+/-- the remaining store-before-raise: `d.bounds = [[0,0,0],[1,1,1]]` on a length-2 device raises `ValueError`
+('Bad shape') and leaves the device reporting the rows `(0,0)`, `(1,1)`. -/
+theorem rejected_bounds_misread_retained :
+    ∃ (d : Dev ℝ) (v : Val ℝ), (setField d .bounds v).2 = some .valueError ∧ (setField d .bounds v).1.table ≠ d.table := by
+  refine ⟨Dev.default .device 2,
+    .bounds (.seq .list [.seq .list [.num 0, .num 0, .num 0], .seq .list [.num 1, .num 1, .num 1]]), ?_, ?_⟩
   · simp [setField, owns, Dev.default, validateBoundsW, npShape, commonShape, pairPath, normElem, pyLen, entries,
-      scalars, scalar?, finish, zipRows, rowAllNone, rowHasNone, rowOrdered, rowPair, hbNonpos]
-    try norm_num
-  · simp [runAll, setField, owns, Dev.default, validateBoundsW, npShape, commonShape, pairPath, normElem, pyLen, entries,
-      scalars, scalar?, finish, zipRows, rowAllNone, rowHasNone, rowOrdered, rowPair, hbNonpos, HbNonpos]
-    try norm_num
-    try exact ⟨some 0, some 1, ⟨rfl, rfl⟩, by intro x hx; cases hx; norm_num⟩
+      scalars, scalar?, finish, rowAllNone, rowHasNone, rowOrdered, rowPair]
+  · simp [setField, owns, Dev.default, validateBoundsW, npShape, commonShape, pairPath, normElem, pyLen, entries,
+      scalars, scalar?, finish, rowAllNone, rowHasNone, rowOrdered, rowPair]
 
 /-! ## E. reported = supplied -/
 
@@ -428,9 +465,9 @@ theorem step_reported {d : Dev ℝ} {f : Field} {v : Val ℝ} {d' : Dev ℝ} (h 
     (¬ owns d.cls f = true → d'.extra = d.extra ++ [(f, v)]) := by
   cases h with
   | attr ho => exact ⟨fun h => absurd h ho, fun _ => rfl⟩
-  | bounds bv w t e hf hv hw he => exact absurd hf hb
+  | bounds bv w t e hf hv hw hg he => exact absurd hf hb
   | cbNone hf hv => exact absurd hf hcb
-  | cb spec st e hf hv hs hr => exact absurd hf hcb
+  | cb spec st hf hv hs hr => exact absurd hf hcb
   | c1 x hf ho hv hok => subst hf hv; exact ⟨fun _ => ⟨rfl, rfl⟩, fun h => absurd ho h⟩
   | c2 x hf ho hv hok => subst hf hv; exact ⟨fun _ => ⟨rfl, rfl⟩, fun h => absurd ho h⟩
   | c3 x hf ho hv hok => subst hf hv; exact ⟨fun _ => ⟨rfl, rfl⟩, fun h => absurd ho h⟩
@@ -457,7 +494,7 @@ theorem step_reported {d : Dev ℝ} {f : Field} {v : Val ℝ} {d' : Dev ℝ} (h 
   | rcScalar x hf ho hv hok => subst hf hv; exact ⟨fun _ => ⟨rfl, rfl⟩, fun h => absurd ho h⟩
   | rcNone hf ho hv => subst hf hv; exact ⟨fun _ => ⟨rfl, rfl⟩, fun h => absurd ho h⟩
   | rcPair a b hf ho hv hoa hob => subst hf hv; exact ⟨fun _ => ⟨rfl, rfl⟩, fun h => absurd ho h⟩
-  | coeffs k rows e hf ho hv hok => subst hf hv; exact ⟨fun _ => ⟨rfl, rfl⟩, fun h => absurd ho h⟩
+  | coeffs k rows hf ho hv hok => subst hf hv; exact ⟨fun _ => ⟨rfl, rfl⟩, fun h => absurd ho h⟩
 
 /-- an assignment to `f` (accepted or not) leaves what is reported for every *other* parameter alone,
 and never removes a plain attribute. -/
@@ -467,9 +504,9 @@ theorem step_reported_frame {d : Dev ℝ} {f : Field} {v : Val ℝ} {r : Dev ℝ
   cases h with
   | rejected e => exact ⟨fun _ _ => rfl, fun _ hp => hp⟩
   | attr ho => exact ⟨fun g _ => by cases g <;> rfl, fun p hp => List.mem_append_left _ hp⟩
-  | bounds bv w t e hf hv hw he => exact ⟨fun g _ => by cases g <;> rfl, fun _ hp => hp⟩
+  | bounds bv w t e hf hv hw hg he => exact ⟨fun g _ => by cases g <;> rfl, fun _ hp => hp⟩
   | cbNone hf hv => exact ⟨fun g _ => by cases g <;> rfl, fun _ hp => hp⟩
-  | cb spec st e hf hv hs hr => exact ⟨fun g _ => by cases g <;> rfl, fun _ hp => hp⟩
+  | cb spec st hf hv hs hr => exact ⟨fun g _ => by cases g <;> rfl, fun _ hp => hp⟩
   | c1 x hf ho hv hok => subst hf; exact ⟨fun g hg => by cases g <;> first | rfl | exact absurd rfl hg, fun _ hp => hp⟩
   | c2 x hf ho hv hok => subst hf; exact ⟨fun g hg => by cases g <;> first | rfl | exact absurd rfl hg, fun _ hp => hp⟩
   | c3 x hf ho hv hok => subst hf; exact ⟨fun g hg => by cases g <;> first | rfl | exact absurd rfl hg, fun _ hp => hp⟩
@@ -497,7 +534,7 @@ theorem step_reported_frame {d : Dev ℝ} {f : Field} {v : Val ℝ} {r : Dev ℝ
   | rcScalar x hf ho hv hok => subst hf; exact ⟨fun g hg => by cases g <;> first | rfl | exact absurd rfl hg, fun _ hp => hp⟩
   | rcNone hf ho hv => subst hf; exact ⟨fun g hg => by cases g <;> first | rfl | exact absurd rfl hg, fun _ hp => hp⟩
   | rcPair a b hf ho hv hoa hob => subst hf; exact ⟨fun g hg => by cases g <;> first | rfl | exact absurd rfl hg, fun _ hp => hp⟩
-  | coeffs k rows e hf ho hv hok => subst hf; exact ⟨fun g hg => by cases g <;> first | rfl | exact absurd rfl hg, fun _ hp => hp⟩
+  | coeffs k rows hf ho hv hok => subst hf; exact ⟨fun g hg => by cases g <;> first | rfl | exact absurd rfl hg, fun _ hp => hp⟩
 
 /-- keyword arguments applied in caller order: each is stored as supplied, nothing else moves. -/
 theorem setAll_reported {d d' : Dev ℝ} {kw : List (Field × Val ℝ)} (h : setAll d kw = .ok d')
@@ -600,25 +637,25 @@ theorem reported_eq_supplied {cls : Cls} {n : ℕ} {bv : PyVal ℝ} {cb : CbSpec
             have hbounds : (if cls = .gdevice ∨ cls = .pvdevice then genBounds bv n else deviceBounds bv n) = .ok d1.table := by
               cases hs1 with
               | attr ho => exact absurd (owns_bounds _) ho
-              | bounds bv' w t e hf hv hw he =>
+              | bounds bv' w t e hf hv hw hg he =>
                 cases hv
-                obtain ⟨hw2, hgen⟩ := he rfl
+                have hw2 : w = 2 := he.mp rfl
                 have hwn : validateBoundsW bv n = .ok (w, t) := hw
                 have hdev : deviceBounds bv n = .ok t := by simp [deviceBounds, hwn, hw2]
-                split_ifs with hg
-                · obtain ⟨hsh, hnp⟩ := hgen hg
-                  simp [genBounds, hdev, hsh, hnp]
+                split_ifs with hg'
+                · have hnp := hg hg'
+                  simp [genBounds, hwn, hnp, hw2]
                 · exact hdev
               | cbNone hf hv => cases hf
-              | cb spec st e hf hv hs hr => cases hf
+              | cb spec st hf hv hs hr => cases hf
               | _ => contradiction
             -- the cumulative bounds of d2
             have hcb : cbMeaning n cb = some d2.cbounds := by
               cases hs2 with
               | attr ho => exact absurd (owns_cbounds _) ho
-              | bounds bv' w t e hf hv hw he => cases hf
+              | bounds bv' w t e hf hv hw hg he => cases hf
               | cbNone hf hv => cases hv; rfl
-              | cb spec st e hf hv hs hr =>
+              | cb spec st hf hv hs hr =>
                 cases hv
                 rw [← hd1n]
                 by_cases hn : tableNumeric d1.table = true
